@@ -378,7 +378,13 @@ def _eval_b(x, chunks, q, axis, m, kd):
     factor = 8.0
     if x.dtype == np.dtype("float32") and e.dtype == np.dtype("float64"):
         factor *= float(np.finfo("float32").eps) / float(np.finfo("float64").eps)
-    mm = compare_arrays(rv, e, exact=False, n=4, scale=scale, factor=factor)
+    # Calibration (lead): for a float32 input and a LIST q NumPy's own result dtype depends on the data
+    # (float64 when a lane holds NaN, float32 otherwise: np.nanpercentile applies np.percentile lane by lane),
+    # so the dtype facet is only demanded where NumPy's rule is content independent.
+    dtype_defined = not (isinstance(q, list) and x.dtype == np.dtype("float32"))
+    mm = compare_arrays(rv, e, exact=False, n=4, scale=scale, factor=factor, check_dtype=dtype_defined)
+    if mm is None and not dtype_defined and rv.dtype not in (np.dtype("float32"), np.dtype("float64")):
+        mm = ("dtype", "dtype %s is neither float32 nor float64" % rv.dtype)
     if mm is None:
         lm = lazy_meta_mismatch(r, rv)
         if lm and lm[0] != "lazy-dtype":
